@@ -113,6 +113,59 @@ let parse_disj s =
       let (sx, _) = parse_sx (tokenize d) in
       (m, expr_of sx)) (List.filter (fun x -> String.trim x <> "") (String.split_on_char ',' s))
 
+
+(* ---- NEST: struct-level disjunctions whose fields hold disjunctions (Core/Nest.v) ----
+   NEST <labs> <atoms> | term ; term ... | (or (m term ...) (u term ...)) ; ...
+   term ::= (lit (f <label> item ...) ...) | (sc <scalar sexpr>) | (bot)
+   item ::= <expr sexpr> | (or (m <expr>) (u <expr>) ...)                                  *)
+let alt_of f = function
+  | L (A "m" :: xs) -> (true, f xs)
+  | L (A "u" :: xs) -> (false, f xs)
+  | _ -> failwith "alt"
+
+let fval_of items =
+  let plain = ref [] and ds = ref [] in
+  List.iter (function
+      | L (A "or" :: alts) ->
+        ds := List.map (alt_of (function [e] -> expr_of e | _ -> failwith "field alt")) alts :: !ds
+      | e -> plain := expr_of e :: !plain) items;
+  { fv_plain = List.rev !plain; fv_disjs = List.rev !ds }
+
+let term_of = function
+  | L (A "lit" :: fs) ->
+    TLit (List.map (function L (A "f" :: A l :: items) -> (label_of l, fval_of items) | _ -> failwith "lit field") fs)
+  | L [A "sc"; e] -> (match expr_of e with EScalar c -> TScalar c | _ -> failwith "sc")
+  | L [A "bot"] -> TBot
+  | _ -> failwith "term"
+
+let show_fout (r, acc) =
+  (match r with Chosen v -> "C" ^ show v | Ambiguous -> "A" | NoValue -> "N") ^ "/" ^ bits acc
+
+let show_aval = function
+  | AErr -> "E"
+  | AScal r -> show r
+  | AStruct fs -> "{" ^ String.concat "," (List.map (fun (p, o) -> if p then "=" ^ show_fout o else "-") fs) ^ "}"
+
+let sx_list s =
+  let rec go toks acc = match toks with [] -> List.rev acc | _ -> let (x, r) = parse_sx toks in go r (x :: acc) in
+  go (tokenize s) []
+
+let handle_nest labs atoms plain disjs =
+  let labs = List.map label_of (String.split_on_char ',' labs) in
+  let atoms = List.map atom_of (String.split_on_char ',' atoms) in
+  cur_labs := labs; no_open := true;
+  let plain = List.concat_map (fun s -> List.map term_of (sx_list s)) (split_on_string ';' plain) in
+  let ds = List.concat_map (fun s -> List.map (function
+      | L (A "or" :: alts) -> List.map (alt_of (List.map term_of)) alts
+      | _ -> failwith "sdisj") (sx_list s)) (split_on_string ';' disjs) in
+  let ((((r, acc), sens), nv), twins) = core_eval_nest labs atoms (nat_of_int 40) plain ds in
+  let rec int_of_nat = function O -> 0 | S n -> 1 + int_of_nat n in
+  let out = (match r with
+      | GChosen v -> "CHOSEN " ^ show_aval v
+      | GAmbiguous -> "AMBIG " ^ string_of_int (int_of_nat nv)
+      | GNoValue -> "NOVALUE -") ^ " " ^ bits acc ^ (if twins then " TWINS" else "") ^ (if sens then " SENS" else "") in
+  no_open := false; out
+
 let handle_disj head plain disjs =
   match List.filter (fun w -> w <> "") (String.split_on_char ' ' head) with
   | ["DISJ"; labs; atoms] ->
@@ -128,6 +181,7 @@ let handle_disj head plain disjs =
         | Ambiguous -> "AMBIG -"
         | NoValue -> "NOVALUE -") ^ " " ^ bits acc ^ (if late then " LATE " ^ String.concat ";" (List.map show vals) else "") in
     no_open := false; out
+  | ["NEST"; labs; atoms] -> handle_nest labs atoms plain disjs
   | _ -> "BADCASE"
 
 let handle line =
